@@ -30,12 +30,16 @@
 From Coq Require Import List Arith Bool Lia.
 Import ListNotations.
 
+(* which container: the walk treats them alike, the printer (below) and the assignability test do not *)
+Inductive k1 : Type := KArray | KOptional | KNotUndef | KType.
+Inductive k2 : Type := KHash | KTuple | KVariant.
+
 (* the expression of a declaration (a *DeferredType) *)
 Inductive aexp : Type :=
 | XCore                         (* a core type name without arguments: Integer, String, .. (resolver.go:11) *)
 | XName (n : nat)               (* any other name: looked up in the loader *)
-| XCont1 (e : aexp)             (* Array[e], Optional[e], NotUndef[e], Type[e]: the creator stores the type unasked *)
-| XCont2 (a b : aexp)           (* Hash[a, b], Tuple[a, b], Variant[a, b] *)
+| XCont1 (k : k1) (e : aexp)            (* Array[e], Optional[e], NotUndef[e], Type[e]: the creator stores the type unasked *)
+| XCont2 (k : k2) (a b : aexp)          (* Hash[a, b], Tuple[a, b], Variant[a, b] *)
 | XVar1 (e : aexp)              (* Variant[e]: the member itself (varianttype.go:52-56) *)
 | XArgs (n : nat) (e : aexp)    (* Name[e] for a name that is no core type *)
 | XObj0                         (* Object[{}] *)
@@ -45,8 +49,8 @@ Inductive rty : Type :=
 | TCore
 | TRef (n : nat)                (* *TypeReferenceType *)
 | TAlias (n : nat)              (* the *TypeAliasType declared under the name n (a pointer: its state is in `state`) *)
-| TC1 (t : rty)
-| TC2 (a b : rty)
+| TC1 (k : k1) (t : rty)
+| TC2 (k : k2) (a b : rty)
 | TObj.
 
 (* TypeAliasType{resolvedType, resolving} *)
@@ -70,7 +74,9 @@ Inductive ecode : Type :=
 | EUnresolvedType          (* PCORE_UNRESOLVED_TYPE *)
 | EIllegalInheritance      (* PCORE_ILLEGAL_OBJECT_INHERITANCE *)
 | ENotParameterized        (* PCORE_NOT_PARAMETERIZED_TYPE: Name[..] for a declared alias (resolver.go:32) *)
-| EIllegalArgument.        (* PCORE_ILLEGAL_ARGUMENT_TYPE: Name[type] for an undeclared name, the creator of TypeReference *)
+| EIllegalArgument         (* PCORE_ILLEGAL_ARGUMENT_TYPE: Name[type] for an undeclared name, the creator of TypeReference *)
+| EIllegalArgumentOrUnresolved      (* one of the two: the model does not predict whether wording the error raises *)
+| EIllegalInheritanceOrUnresolved.
 
 Inductive rres : Type := ROk (st : state) (t : rty) | RErr (c : ecode) | ROutOfFuel.
 
@@ -102,6 +108,223 @@ Fixpoint rp_loop (fuel : nat) (st : state) (seen : list nat) (tp : rty) : pres :
 
 Definition resolved_parent (st : state) (tp : rty) : pres := rp_loop (S (length st)) st [] tp.
 
+(* ---- the printer that words PCORE_ILLEGAL_ARGUMENT_TYPE (types.go:212 px.DetailedValueType(actual).String()) and
+        PCORE_ILLEGAL_OBJECT_INHERITANCE (objecttype.go:1379-1382 illegalParent: tp.PType().String()) with a type.
+   Both print Type[t]: TypeToString / basicTypeToString (types.go:220-262) write the name and then the list of
+   Parameters() as an Array value (WrapValues(params).ToString, arraytype.go:628); the Array value asks for its own type
+   (PType = privateReducedType, arraytype.go:817-833), which folds commonType (commonality.go:12) over the types of
+   the elements: for the parameters [a, b] of Hash / Tuple / Variant that is commonType(Type[a], Type[b]) =
+   isAssignable(Type[a], Type[b]), then isAssignable(Type[b], Type[a]), then (both TypeType) the same for a and b, then
+   the element types of two Array / NotUndef / Type. An alias prints as its name (typealiastype.go:178-199: the
+   format is never %#b), so the printer never walks into an alias - but the assignability test does, and
+   TypeAliasType.IsAssignable (typealiastype.go:122-132) asks ResolvedType(), which raises PCORE_UNRESOLVED_TYPE for an
+   alias that has no resolved type (:167-172): the error that was being worded is replaced by that one.
+   The format lookups (px.GetFormat over DefaultFormats, format.go:136-145) and the tail of commonType
+   (isCommonNumeric .. isCommonRichData) have a fixed core type on the left and an alias without resolved type on the
+   right is `false` (types.go:137-148 with the nil resolved type, :118), so they never raise. ---- *)
+
+Inductive tri : Type := TT | TF | TRaise | TUnk.      (* true / false / raises PCORE_UNRESOLVED_TYPE / not modelled *)
+
+(* a type or the Undef type (undefTypeDefault: Optional and NotUndef ask about it) *)
+Inductive aty : Type := AUndef | AT (t : rty).
+
+Definition k1_eqb (a b : k1) : bool :=
+  match a, b with KArray, KArray | KOptional, KOptional | KNotUndef, KNotUndef | KType, KType => true | _, _ => false end.
+Definition k2_eqb (a b : k2) : bool :=
+  match a, b with KHash, KHash | KTuple, KTuple | KVariant, KVariant => true | _, _ => false end.
+
+Fixpoint rty_eqb (a b : rty) : bool :=
+  match a, b with
+  | TCore, TCore | TObj, TObj => true
+  | TRef n, TRef m | TAlias n, TAlias m => Nat.eqb n m
+  | TC1 k x, TC1 k' x' => k1_eqb k k' && rty_eqb x x'
+  | TC2 k x y, TC2 k' x' y' => k2_eqb k k' && rty_eqb x x' && rty_eqb y y'
+  | _, _ => false
+  end.
+
+Definition aty_eqb (a b : aty) : bool :=
+  match a, b with AUndef, AUndef => true | AT x, AT y => rty_eqb x y | _, _ => false end.
+
+(* a == b of types.go:114 as far as the model can tell: the same alias, the one Integer type, the one Undef type *)
+Definition same_ptr (a b : aty) : bool :=
+  match a, b with
+  | AUndef, AUndef | AT TCore, AT TCore => true
+  | AT (TAlias n), AT (TAlias m) => Nat.eqb n m
+  | _, _ => false
+  end.
+
+Definition resolved_of (st : state) (n : nat) : option rty :=
+  match lookup st n with Some (_, SDone t) => Some t | _ => None end.
+
+(* px.Guard: the pairs under comparison; the functional list is released on return as g.Done does *)
+Definition seen_pair (g : list (aty * aty)) (a b : aty) : bool :=
+  existsb (fun p => aty_eqb (fst p) a && aty_eqb (snd p) b) g.
+
+(* GuardedIsAssignable (types.go:113-153) and X.IsAssignable of the types of the model *)
+Fixpoint asg (fuel : nat) (st : state) (g : list (aty * aty)) (a b : aty) {struct fuel} : tri :=
+  match fuel with
+  | O => TUnk
+  | S f =>
+    if same_ptr a b then TT
+    else match b with
+    | AT (TC1 KNotUndef x) =>                                  (* :122-130 *)
+      match asg f st g a (AT x) with
+      | TT => TT
+      | TF => match asg f st g (AT x) AUndef with
+              | TF => TF
+              | TT => asg_left f st g a b
+              | r => r
+              end
+      | r => r
+      end
+    | AT (TC1 KOptional x) =>                                  (* :131-136 *)
+      match asg f st g a AUndef with
+      | TT => asg f st g a (AT x)
+      | r => r
+      end
+    | AT (TAlias m) =>                                         (* :137-148: the nil resolved type is `false` (:118) *)
+      if seen_pair g a b then TT
+      else match resolved_of st m with
+           | Some t => asg f st ((a, b) :: g) a (AT t)
+           | None => TF
+           end
+    | AT (TC2 KVariant x y) =>                                 (* :149-150 allAssignableTo *)
+      match asg f st g a (AT x) with
+      | TT => asg f st g a (AT y)
+      | r => r
+      end
+    | _ => asg_left f st g a b
+    end
+  end
+
+with asg_left (fuel : nat) (st : state) (g : list (aty * aty)) (a b : aty) {struct fuel} : tri :=
+  match fuel with
+  | O => TUnk
+  | S f =>
+    match a with
+    | AUndef => match b with AUndef => TT | _ => TF end                        (* undeftype.go:44 *)
+    | AT TCore => match b with AT TCore => TT | _ => TF end                    (* integertype.go:234 *)
+    | AT (TRef n) => match b with AT (TRef m) => if Nat.eqb n m then TT else TF | _ => TF end   (* typereferencetype.go:73 *)
+    | AT (TC1 KArray x) =>                                                     (* arraytype.go:187-208, sizes 0.. / 2..2 *)
+      match b with
+      | AT (TC1 KArray y) => asg f st g (AT x) (AT y)
+      | AT (TC2 KTuple y z) =>
+        match asg f st g (AT x) (AT y) with TT => asg f st g (AT x) (AT z) | r => r end
+      | _ => TF
+      end
+    | AT (TC1 KOptional x) =>                                                  (* optionaltype.go:95 *)
+      match asg f st g AUndef b with TF => asg f st g (AT x) b | r => r end
+    | AT (TC1 KNotUndef x) =>                                                  (* notundeftype.go:95 *)
+      match asg f st g b AUndef with TT => TF | TF => asg f st g (AT x) b | r => r end
+    | AT (TC1 KType x) =>                                                      (* typetype.go:102 *)
+      match b with AT (TC1 KType y) => asg f st g (AT x) (AT y) | _ => TF end
+    | AT (TC2 KHash k v) =>                                                    (* hashtype.go:285-291 *)
+      match b with
+      | AT (TC2 KHash k' v') =>
+        match asg f st g (AT k) (AT k') with TT => asg f st g (AT v) (AT v') | r => r end
+      | _ => TF
+      end
+    | AT (TC2 KTuple x y) =>                                                   (* tupletype.go:238-291: 2..2 takes no Array *)
+      match b with
+      | AT (TC2 KTuple x' y') =>
+        match asg f st g (AT x) (AT x') with TT => asg f st g (AT y) (AT y') | r => r end
+      | _ => TF
+      end
+    | AT (TC2 KVariant x y) =>                                                 (* varianttype.go:104 *)
+      match asg f st g (AT x) b with TF => asg f st g (AT y) b | r => r end
+    | AT (TAlias n) =>                                                         (* typealiastype.go:122-132 *)
+      if seen_pair g a b then TT
+      else match resolved_of st n with
+           | Some t => asg f st ((a, b) :: g) (AT t) b
+           | None => TRaise                                                    (* ResolvedType() :167-172 *)
+           end
+    | AT TObj => match b with AT TObj => TUnk | _ => TF end                    (* objecttype.go:677-686; two Object types: not modelled *)
+    end
+  end.
+
+Inductive ppred : Type := PFine | PRaises | PUnknown.
+
+Definition pjoin (a b : ppred) : ppred :=
+  match a, b with
+  | PRaises, _ | _, PRaises => PRaises
+  | PUnknown, _ | _, PUnknown => PUnknown
+  | PFine, PFine => PFine
+  end.
+
+Definition print_fuel : nat := 24.
+
+(* commonType(Type[a], Type[b]) (commonality.go:12-26, :129-132, :72-78, :106-109); two Tuple types
+   (CommonElementType) and two Variant types (UniqueTypes) are not modelled *)
+Fixpoint common_pred (st : state) (a b : rty) {struct a} : ppred :=
+  match asg print_fuel st [] (AT a) (AT b) with
+  | TT => PFine | TRaise => PRaises | TUnk => PUnknown
+  | TF =>
+    match asg print_fuel st [] (AT b) (AT a) with
+    | TT => PFine | TRaise => PRaises | TUnk => PUnknown
+    | TF =>
+      match a, b with
+      | TC1 KArray x, TC1 KArray y => common_pred st x y
+      | TC1 KNotUndef x, TC1 KNotUndef y => common_pred st x y
+      | TC1 KType x, TC1 KType y => common_pred st x y
+      | TC2 KTuple _ _, TC2 KTuple _ _ => PUnknown
+      | TC2 KVariant _ _, TC2 KVariant _ _ => PUnknown
+      | _, _ => PFine
+      end
+    end
+  end.
+
+(* the walk of the printer over the type: the parameter list first, then every parameter *)
+Fixpoint print_walk (st : state) (t : rty) : ppred :=
+  match t with
+  | TC2 _ a b => pjoin (common_pred st a b) (pjoin (print_walk st a) (print_walk st b))
+  | TC1 _ a => print_walk st a
+  | _ => PFine
+  end.
+
+(* can an alias without resolved type be reached from t at all (through containers and the resolved types of
+   aliases)? If not, nothing can raise. `taint k` is exact after as many rounds as there are declarations. *)
+Fixpoint tmentions (p : nat -> bool) (t : rty) : bool :=
+  match t with
+  | TAlias n => p n
+  | TC1 _ a => tmentions p a
+  | TC2 _ a b => tmentions p a || tmentions p b
+  | _ => false
+  end.
+
+Fixpoint taint (k : nat) (st : state) (n : nat) : bool :=
+  match lookup st n with
+  | Some (_, SDone t) => match k with O => false | S k' => tmentions (taint k' st) t end
+  | Some _ => true
+  | None => false
+  end.
+
+Definition tainted (st : state) (t : rty) : bool := tmentions (taint (length st) st) t.
+
+Definition print_pred (st : state) (t : rty) : ppred :=
+  if tainted st t then print_walk st t else PFine.
+
+(* the type the loop of resolvedParent stands at when it gives up (the one illegalParent words) *)
+Fixpoint rp_culprit (fuel : nat) (st : state) (seen : list nat) (tp : rty) : rty :=
+  match fuel with
+  | O => tp
+  | S f =>
+    match tp with
+    | TAlias n =>
+      if existsb (Nat.eqb n) seen then tp
+      else match lookup st n with
+           | Some (_, SDone t) => rp_culprit f st (n :: seen) t
+           | _ => tp
+           end
+    | _ => tp
+    end
+  end.
+
+Definition illegal_parent_type (st : state) (tp : rty) : rty := rp_culprit (S (length st)) st [] tp.
+
+(* the error as it leaves the wording *)
+Definition worded (c either : ecode) (p : ppred) : ecode :=
+  match p with PFine => c | PRaises => EUnresolvedType | PUnknown => either end.
+
 Fixpoint dt_resolve (fuel : nat) (st : state) (e : aexp) {struct fuel} : rres :=
   match fuel with
   | O => ROutOfFuel
@@ -109,17 +332,17 @@ Fixpoint dt_resolve (fuel : nat) (st : state) (e : aexp) {struct fuel} : rres :=
     match e with
     | XCore => ROk st TCore
     | XName n => ROk st (name_type st n)
-    | XCont1 a => rbind (dt_resolve f st a) (fun st1 ta => ROk st1 (TC1 ta))
-    | XCont2 a b =>
+    | XCont1 k a => rbind (dt_resolve f st a) (fun st1 ta => ROk st1 (TC1 k ta))
+    | XCont2 k a b =>
       rbind (dt_resolve f st a) (fun st1 ta =>
-      rbind (dt_resolve f st1 b) (fun st2 tb => ROk st2 (TC2 ta tb)))
+      rbind (dt_resolve f st1 b) (fun st2 tb => ROk st2 (TC2 k ta tb)))
     | XVar1 a => dt_resolve f st a
     | XArgs n a =>
       (* the arguments first (deferredtype.go:68), then the creator of what the name stands for *)
-      rbind (dt_resolve f st a) (fun st1 _ =>
+      rbind (dt_resolve f st a) (fun st1 ta =>
         match lookup st1 n with
         | Some _ => RErr ENotParameterized
-        | None => RErr EIllegalArgument
+        | None => RErr (worded EIllegalArgument EIllegalArgumentOrUnresolved (print_pred st1 ta))   (* types.go:212 *)
         end)
     | XObj0 => ROk st TObj
     | XObj p =>
@@ -128,7 +351,8 @@ Fixpoint dt_resolve (fuel : nat) (st : state) (e : aexp) {struct fuel} : rres :=
         match resolved_parent st2 tp' with                    (* :399-400 *)
         | PObj => ROk st2 TObj
         | PUnresolved => RErr EUnresolvedType
-        | PIllegal => RErr EIllegalInheritance
+        | PIllegal => RErr (worded EIllegalInheritance EIllegalInheritanceOrUnresolved
+                                   (print_pred st2 (illegal_parent_type st2 tp')))      (* :1379-1382 *)
         | POutOfFuel => ROutOfFuel
         end))
     end
@@ -161,10 +385,10 @@ with ty_resolve (fuel : nat) (st : state) (t : rty) {struct fuel} : rres :=
       | None => RErr EUnresolvedType
       | Some _ => alias_resolve f st n
       end
-    | TC1 a => rbind (ty_resolve f st a) (fun st1 a' => ROk st1 (TC1 a'))
-    | TC2 a b =>
+    | TC1 k a => rbind (ty_resolve f st a) (fun st1 a' => ROk st1 (TC1 k a'))
+    | TC2 k a b =>
       rbind (ty_resolve f st a) (fun st1 a' =>
-      rbind (ty_resolve f st1 b) (fun st2 b' => ROk st2 (TC2 a' b')))
+      rbind (ty_resolve f st1 b) (fun st2 b' => ROk st2 (TC2 k a' b')))
     end
   end.
 
@@ -173,16 +397,16 @@ Fixpoint esize (e : aexp) : nat :=
   match e with
   | XCore | XObj0 => 1
   | XName _ => 2
-  | XCont1 a | XVar1 a | XArgs _ a | XObj a => S (esize a)
-  | XCont2 a b => S (esize a + esize b)
+  | XCont1 _ a | XVar1 a | XArgs _ a | XObj a => S (esize a)
+  | XCont2 _ a b => S (esize a + esize b)
   end.
 
 Fixpoint tsize (t : rty) : nat :=
   match t with
   | TCore | TObj => 1
   | TRef _ | TAlias _ => 2
-  | TC1 a => S (tsize a)
-  | TC2 a b => S (tsize a + tsize b)
+  | TC1 _ a => S (tsize a)
+  | TC2 _ a b => S (tsize a + tsize b)
   end.
 
 (* what the aliases that nobody has asked for yet can still cost *)
@@ -217,6 +441,8 @@ Definition rres_class (r : rres) : nat :=
   | RErr EIllegalInheritance => 2
   | RErr ENotParameterized => 3
   | RErr EIllegalArgument => 4
+  | RErr EIllegalArgumentOrUnresolved => 41
+  | RErr EIllegalInheritanceOrUnresolved => 21
   | ROutOfFuel => 9
   end.
 
@@ -225,7 +451,7 @@ Definition rres_class (r : rres) : nat :=
 Definition head_kind (s : slot) : nat :=
   match s with
   | SDone TCore => 0 | SDone (TRef _) => 1 | SDone (TAlias _) => 2
-  | SDone (TC1 _) | SDone (TC2 _ _) => 3 | SDone TObj => 4
+  | SDone (TC1 _ _) | SDone (TC2 _ _ _) => 3 | SDone TObj => 4
   | _ => 5
   end.
 
